@@ -13,3 +13,4 @@ import SamVerif.Props.C06
 import SamVerif.Props.C05
 import SamVerif.Props.C13
 import SamVerif.Props.C11
+import SamVerif.Props.C08
